@@ -1061,3 +1061,108 @@ Lemma step_inert_partial P d r d' s :
 Proof.
   intros Hn HQ. eapply step_inert_core; [exact Hn|]. intros ci Hin Hs Hc. rewrite (HQ ci Hin Hs) in Hc. done.
 Qed.
+
+(** * Report times: only the reporting replica's own record is touched (all inputs).
+    After a command none of whose entries names replica rid of shard s, the report time of that
+    member is what it was before, or 0 if the record was created by this command. *)
+Definition tick_rel (s rid : N) (a b : gmap N shard) : Prop :=
+  ∀ c1 n1, b !! s = Some c1 → s_reps c1 !! rid = Some n1 →
+    r_tick n1 = 0 ∨ ∃ c0 n0, a !! s = Some c0 ∧ s_reps c0 !! rid = Some n0 ∧ r_tick n0 = r_tick n1.
+
+Lemma tick_rel_refl s rid a : tick_rel s rid a a.
+Proof. intros c1 n1 Hc Hn. right. by exists c1, n1. Qed.
+
+Lemma tick_rel_trans s rid a b c : tick_rel s rid a b → tick_rel s rid b c → tick_rel s rid a c.
+Proof.
+  intros Hab Hbc c1 n1 Hc Hn. destruct (Hbc c1 n1 Hc Hn) as [Hz|(cb & nb & Hcb & Hnb & Et)]; [by left|].
+  destruct (Hab cb nb Hcb Hnb) as [Hz|(ca & na & Hca & Hna & Et')]; [left; congruence|].
+  right. exists ca, na. split; [done|]. split; [done|]. congruence.
+Qed.
+
+Lemma touch_replica_tick_rel t view ci s rid :
+  ¬ (si_shard ci = s ∧ si_replica ci = rid) → tick_rel s rid view (touch_replica t view ci).
+Proof.
+  intros HQ c1 n1 Hc Hn. unfold touch_replica in Hc.
+  destruct (view !! si_shard ci) as [ec|] eqn:Ev; [|right; by exists c1, n1].
+  destruct (s_reps ec !! si_replica ci) as [n|] eqn:En; [|right; by exists c1, n1].
+  destruct (decide (si_shard ci = s)) as [Hs|Hne]; [|rewrite lookup_insert_ne in Hc by done; right; by exists c1, n1].
+  subst s. rewrite lookup_insert in Hc. injection Hc as <-. cbn [s_reps] in Hn.
+  rewrite lookup_insert_ne in Hn by (intros E; apply HQ; done). right. by exists ec, n1.
+Qed.
+
+Lemma leader_entry_tick_rel view ci s rid : tick_rel s rid view (leader_entry view ci).
+Proof.
+  intros c1 n1 Hc Hn. unfold leader_entry in Hc.
+  destruct (view !! si_shard ci) as [c|] eqn:Ev; [|right; by exists c1, n1].
+  destruct (si_cci ci <? s_cci c); [right; by exists c1, n1|].
+  destruct (s_reps c !! si_replica ci) as [n|] eqn:En; [|right; by exists c1, n1].
+  destruct (negb (si_leader ci) && r_leader n).
+  { destruct (decide (si_shard ci = s)) as [Hs|Hne]; [|rewrite lookup_insert_ne in Hc by done; right; by exists c1, n1].
+    subst s. rewrite lookup_insert in Hc. injection Hc as <-. cbn [s_reps] in Hn. right.
+    destruct (decide (si_replica ci = rid)) as [Hr|Hner].
+    - subst rid. rewrite lookup_insert in Hn. injection Hn as <-. by exists c, n.
+    - rewrite lookup_insert_ne in Hn by done. by exists c, n1. }
+  destruct (si_leader ci && negb (r_leader n)); [|right; by exists c1, n1].
+  destruct (decide (si_shard ci = s)) as [Hs|Hne]; [|rewrite lookup_insert_ne in Hc by done; right; by exists c1, n1].
+  subst s. rewrite lookup_insert in Hc. injection Hc as <-. cbn [s_reps] in Hn. right.
+  destruct (decide (si_replica ci = rid)) as [Hr|Hner].
+  - subst rid. rewrite lookup_insert in Hn. injection Hn as <-. by exists c, n.
+  - rewrite lookup_insert_ne, lookup_fmap in Hn by done. destruct (s_reps c !! rid) as [x|] eqn:Ex; [|done].
+    injection Hn as <-. by exists c, x.
+Qed.
+
+Lemma step_tick_only_reporter P d c d' s rid c1 n1 :
+  next P d c = Some d' →
+  (∀ r ci, c = CReport r → ci ∈ rp_infos r → ¬ (si_shard ci = s ∧ si_replica ci = rid)) →
+  d_view d' !! s = Some c1 → s_reps c1 !! rid = Some n1 →
+  r_tick n1 = 0 ∨ ∃ c0 n0, d_view d !! s = Some c0 ∧ s_reps c0 !! rid = Some n0 ∧ r_tick n0 = r_tick n1.
+Proof.
+  intros Hn HQ Hc1 Hn1. cut (tick_rel s rid (d_view d) (d_view d')); [intros Hrel; exact (Hrel c1 n1 Hc1 Hn1)|].
+  clear Hc1 Hn1.
+  apply (step_view_rel P (λ ci, ¬ (si_shard ci = s ∧ si_replica ci = rid)) (λ _, tick_rel s rid)) with (c := c); auto.
+  - intros _. apply tick_rel_refl.
+  - intros _. apply tick_rel_trans.
+  - intros t view tk ci view' tk' _ Hu c' n' Hc' Hn'.
+    destruct (update_entry_members t view tk ci view' tk' s c' rid n' Hu Hc' Hn') as [(c0 & Hc0 & Hn0)|(_ & _ & Hz)]; [|by left].
+    right. by exists c0, n'.
+  - intros t view ci Hq. by apply touch_replica_tick_rel.
+  - intros t view ci _. apply leader_entry_tick_rel.
+  - destruct c; try done. apply list.Forall_forall. intros ci Hin. by apply (HQ r).
+Qed.
+
+(* and the reporting replica, if it is a member after the entry loop, is stamped with the tick *)
+Lemma touch_replica_hit t view ci c n :
+  view !! si_shard ci = Some c → s_reps c !! si_replica ci = Some n →
+  ∃ c', touch_replica t view ci !! si_shard ci = Some c' ∧
+        s_reps c' !! si_replica ci = Some (mkReplica (r_shard n) (r_id n) (r_addr n) (r_leader n) t (r_first n)).
+Proof.
+  intros Hc Hn. unfold touch_replica. rewrite Hc, Hn. eexists. rewrite lookup_insert. split; [reflexivity|].
+  cbn [s_reps]. by rewrite lookup_insert.
+Qed.
+
+(** * The leader pass ignores every entry whose version is below the view's (all inputs):
+    running syncLeaderInfo on the report is the same as running it on the report with those entries removed *)
+Definition stale_b (view : gmap N shard) (ci : shard_info) : bool :=
+  match view !! si_shard ci with Some c => si_cci ci <? s_cci c | None => false end.
+
+Lemma stale_b_ver view ci : stale_b view ci = match ver view (si_shard ci) with Some v => si_cci ci <? v | None => false end.
+Proof. unfold stale_b, ver. by destruct (view !! si_shard ci). Qed.
+
+Lemma leader_entry_stale_b view ci : stale_b view ci = true → leader_entry view ci = view.
+Proof.
+  unfold stale_b. intros Hs. destruct (view !! si_shard ci) as [c|] eqn:Ev; [|done].
+  eapply leader_entry_stale; [exact Ev|lia].
+Qed.
+
+Lemma stale_b_leader_entry view ci ci' : stale_b (leader_entry view ci) ci' = stale_b view ci'.
+Proof. rewrite !stale_b_ver. by rewrite (ver_core (leader_entry view ci) view (si_shard ci')) by apply leader_entry_core. Qed.
+
+Lemma sync_leader_info_drop_stale cis : ∀ view,
+  sync_leader_info view cis = sync_leader_info view (filter (λ ci, stale_b view ci = false) cis).
+Proof.
+  unfold sync_leader_info. induction cis as [|ci cis IH]; intros view; [done|].
+  destruct (stale_b view ci) eqn:Es.
+  - rewrite filter_cons_False by congruence. cbn [foldl]. rewrite (leader_entry_stale_b view ci Es). apply IH.
+  - rewrite filter_cons_True by done. cbn [foldl]. rewrite IH. f_equal.
+    apply list_filter_iff. intros ci'. by rewrite stale_b_leader_entry.
+Qed.
